@@ -97,9 +97,56 @@ class GraphConfig(object):
             setattr(config, k, v)
 
 
+BRUTE_LIMIT = 0  # set by the drivers: size of the auxiliary assignment space up to which z3 is cross-checked
+
+
+def brute_decide(solver, fixes, limit):
+    """Decide the same question without any solver: enumerate every assignment of the variables not pinned by `fixes`
+    and evaluate the posted constraints with the reference evaluator.  None if the space exceeds `limit`."""
+    import itertools
+
+    from cspuz.expr import BoolVar, Expr, IntVar, Op
+
+    from . import refsem
+
+    pinned = {}
+    rest = []
+    for f in fixes:
+        if isinstance(f, (BoolVar,)):
+            pinned[f.id] = True
+        elif isinstance(f, Expr) and f.op == Op.NOT and isinstance(f.operands[0], BoolVar):
+            pinned[f.operands[0].id] = False
+        elif isinstance(f, Expr) and f.op == Op.EQ and isinstance(f.operands[0], IntVar) and isinstance(f.operands[1], int):
+            pinned[f.operands[0].id] = f.operands[1]
+        else:
+            rest.append(f)
+    free = [v for v in solver.variables if v.id not in pinned]
+    size = 1
+    for v in free:
+        size *= len(refsem.domain(v))
+        if size > limit:
+            return None
+    cons = list(solver.constraints) + rest
+    ids = [v.id for v in free]
+    for vals in itertools.product(*[refsem.domain(v) for v in free]):
+        env = dict(pinned)
+        env.update(zip(ids, vals))
+        if refsem.holds(cons, env):
+            return True
+    return False
+
+
 def judge(part, key_prefix, case, pattern, expected, solver, fixes):
     """One decision: compare with the oracle, record outcome/violation.  Returns observed or None."""
     part.count("evaluations")
+    if BRUTE_LIMIT:
+        b = brute_decide(solver, fixes, BRUTE_LIMIT)
+        if b is not None:
+            part.count("solver_free_decisions")
+            if b is not expected:
+                c = dict(case)
+                c["pattern"] = list(pattern)
+                part.violation("%s:%s(solver-free)" % (key_prefix, "false-accept" if b else "false-reject"), c, {"observed_sat": b, "expected_sat": expected})
     try:
         got = decide(solver, fixes)
     except Exception as e:
